@@ -489,7 +489,7 @@ fn local_address(
 /// has a single question in it, because that is how this function is
 /// used by this module.  If that assumption does not hold, a valid
 /// answer may be reported as invalid.
-fn validate_nameserver_response(
+pub(crate) fn validate_nameserver_response(
     question: &Question,
     response: &Message,
     current_match_count: usize,
